@@ -661,7 +661,14 @@ def run(ctx):
     return [rule_entry_fields(prog), rule_fragment_header(prog), rule_title(prog), rule_sign_extend(prog),
             rule_crc(prog), rule_report_provenance(prog), rule_sign_extension_use(prog),
             rule_current_directory_tests(prog), c01.rule_opus_catalogue_slot(prog, rule_id="R-C02-6"),
-            rule_cycle_presence(prog)]
+            rule_cycle_presence(prog), _shared_enumeration(prog)]
+
+
+def _shared_enumeration(prog):
+    from . import c16
+    r = c16.rule_enumeration_covers_all(prog)
+    r.rule = "R-C02-8"       # show-titles reports the title of every occupied drive
+    return r
 
 
 SELFTESTS = [
